@@ -282,11 +282,17 @@ func TimeSince(t time.Time) time.Duration { return time.Unix(0, Now()).Sub(t) }
 
 // RunPending lets spawned goroutines run until each is done or blocked.
 func RunPending() {
-	for i := 0; i < 50; i++ {
+	// natively: wait until the goroutines spawned since the case started have finished (or 50 ms)
+	for i := 0; i < 500; i++ {
 		runtime.Gosched()
-		time.Sleep(time.Millisecond)
+		if runtime.NumGoroutine() <= baseGoroutines {
+			return
+		}
+		time.Sleep(100 * time.Microsecond)
 	}
 }
+
+var baseGoroutines int
 
 // Yield is an explicit scheduling point.
 func Yield() { runtime.Gosched() }
@@ -342,7 +348,12 @@ func ReplayMain(entries map[string]func()) {
 			reps = 1
 		}
 		seen := map[string]bool{}
+		started := time.Now()
 		for k := 0; k < reps; k++ {
+			if k > 0 && time.Since(started) > 60*time.Second {
+				break // repeat budget
+			}
+			baseGoroutines = runtime.NumGoroutine()
 			cur, pos, clock, clockSet, haveSkippedClock = c, 0, 0, false, false
 			if f == nil {
 				res.Desync = "no such entry " + c.Entry
